@@ -325,7 +325,8 @@ def run_driver(driver, module, cases, wd, tag="run", shards=None, timeout=900, e
                 q.kill()
             raise Inconclusive("driver %s timed out after %ss" % (module, timeout))
         if p.returncode != 0:
-            raise Inconclusive("driver %s failed (rc %s): %s" % (module, p.returncode, (so or "")[-2000:]))
+            so = so or ""
+            raise Inconclusive("driver %s failed (rc %s): %s%s" % (module, p.returncode, so[:1500], ("\n...\n" + so[-1500:]) if len(so) > 3000 else so[1500:]))
         with open(outp) as f:
             for line in f:
                 r = json.loads(line)
